@@ -115,6 +115,16 @@ def r18_1(prog, out):
                 key = "%s:%s:%r" % (label, prog.short(pid).split("::")[-1], lit)
                 how = uses.get(lit)
                 matched = how and (how & CONTENT_MATCH)
+                if not matched and lit.startswith("/") and lit.endswith("/"):
+                    # a parser that cuts the input at every '/' compares the segment without its delimiters: `"topics"` is `/topics/`
+                    inner = uses.get(lit.strip("/"))
+                    splits = any(t.callee.path.split("::")[-1] in ("split", "splitn", "split_terminator", "split_once") and "str" in t.callee.path
+                                 and any(str(a.const_int()) == "47" or a.const_str() == "/" for a in t.args[1:])
+                                 for bb, t in pi.calls())
+                    if inner and (inner & CONTENT_MATCH) and splits:
+                        out.holds(key, prog.loc(pid), "the input is cut at '/' and the segment between the cuts is compared with %r by content (%s)" % (
+                            lit.strip("/"), sorted(h.split("::")[-1] for h in inner & CONTENT_MATCH)))
+                        continue
                 if matched:
                     out.holds(key, prog.loc(pid), "literal %r is matched by content (%s)" % (lit, sorted(h.split("::")[-1] for h in matched)))
                 elif how is not None:
@@ -180,8 +190,15 @@ def r18_3(prog, out):
     for (k, f, nt) in (("SubState", "subscriptions", A.ty("SubscriptionName")), ("TopicState", "topics", A.ty("TopicName")),
                        ("TopicActor", "subscriptions", A.ty("SubscriptionName")), ("PushRegistryState", "push_subscriptions", A.ty("SubscriptionName"))):
         fty = A.field_ty(k, f)
+        # a private newtype around the map (struct AttachedSubscriptions { by_name: HashMap<..> }) is the map
+        for _ in range(3):
+            adt2 = prog.facts.adt(fty) if fty.startswith("crate::") else None
+            if adt2 is not None and len(adt2["variants"]) == 1 and len(adt2["variants"][0]["fields"]) == 1:
+                fty = adt2["variants"][0]["fields"][0]["ty"]
+            else:
+                break
         key = "map-key:%s.%s" % (k, f)
-        if fty.startswith("std::collections::HashMap<%s," % nt):
+        if fty.startswith("std::collections::HashMap<%s," % nt) or fty.startswith("std::collections::BTreeMap<%s," % nt):
             out.holds(key, "", "keyed by %s" % short_ty(nt))
         else:
             out.violation(key, "", "%s.%s is %s: not keyed by the parsed name type" % (k, f, short_ty(fty)))
@@ -203,6 +220,43 @@ def r18_4(prog, out):
                               "accepted again depends on string values (not decided statically)" % n)
             else:
                 out.holds(key, prog.loc(pid), "components are stored as untransformed sub-slices")
+
+
+def pi_of(prog, pid):
+    return prog.info(pid)
+
+
+def splitn_remainder(bi, operand, depth=0):
+    """the operand is (a trimmed view of) the n-th item taken from `s.splitn(n, '/')`: the remainder of s, slashes and all"""
+    if depth > 6:
+        return False
+    o = bi.trace(operand)
+    if o.kind != "call":
+        return False
+    t = bi.call_at(o.data)
+    n = t.callee.path.split("::")[-1] if t.callee is not None else ""
+    if n in ("trim_matches", "trim_end_matches", "trim_start_matches", "trim", "into", "from", "to_string", "to_owned", "branch") and t.args:
+        return splitn_remainder(bi, t.args[0], depth + 1)
+    if t.callee is not None and t.callee.path == "std::ops::Try::branch" and t.args:
+        return splitn_remainder(bi, t.args[0], depth + 1)
+    if n != "next" or not t.args:
+        return False
+    it = bi.trace(t.args[0])
+    if it.kind != "call":
+        return False
+    st = bi.call_at(it.data)
+    if st.callee is None or st.callee.path.split("::")[-1] != "splitn" or len(st.args) < 2 or st.args[1].const_int() is None:
+        return False
+    want = st.args[1].const_int()
+    # how many next() calls on the same iterator come before this one on every path
+    before = 0
+    for bb, t2 in bi.calls(lambda c: c.path == "std::iter::Iterator::next"):
+        if bb == o.data or not t2.args:
+            continue
+        it2 = bi.trace(t2.args[0])
+        if it2.kind == "call" and it2.data == it.data and bi.cfg.dominates(bb, o.data):
+            before += 1
+    return before + 1 == want
 
 
 @rule("C18", "R18.5", "the project id ends at the first '/', the resource id is the whole remainder", floor=2)
@@ -249,7 +303,9 @@ def r18_5(prog, out):
             # id: the remainder of the input, not one element of a split
             key = "%s:id-is-remainder" % label
             seg_iter = {c.split("::")[-1] for c in si.calls} & {"next", "nth", "next_back", "last", "split", "splitn", "rsplit", "split_terminator"}
-            if {"next", "nth", "next_back", "last"} & seg_iter and {"split", "splitn", "rsplit", "split_terminator"} & seg_iter:
+            if splitn_remainder(pi_of(prog, pid), rv.ops[names.index(id_f[0])]):
+                out.holds(key, prog.loc(pid), "id = the last item of splitn(n, '/'): the untouched remainder of the input")
+            elif {"next", "nth", "next_back", "last"} & seg_iter and {"split", "splitn", "rsplit", "split_terminator"} & seg_iter:
                 out.violation(key, prog.loc(pid), "the id is one segment of a split of the input: whatever follows that segment is dropped, so names that differ "
                               "in their id (e.g. .../orders/eu and .../orders/us) denote the same resource and are echoed differently from what was sent")
             elif any(c.split("::")[-1] in ("get", "strip_prefix", "split_once", "split_at") for c in si.calls):
